@@ -21,7 +21,7 @@ import (
 
 // LRecip is one recipient of a C11 list.
 type LRecip struct {
-	Native  *world.Key `json:"native,omitempty"` // real recipient (x, e, r: no labels; s: random label)
+	Native  *world.Key `json:"native,omitempty"`  // real recipient (x, e, r: no labels; s: random label)
 	Variant string     `json:"variant,omitempty"` // sim-owned: "plain" (Recipient only), "nil", "empty", "list"
 	Labels  []string   `json:"labels,omitempty"`  // order as returned
 	Fail    bool       `json:"fail,omitempty"`    // injected wrap failure
@@ -30,10 +30,10 @@ type LRecip struct {
 }
 
 type C11Plan struct {
-	Recips []LRecip `json:"recips"`
-	PLen   int      `json:"plen"`
-	Tape   uint64   `json:"tape"`
-	RandFail int    `json:"rand_fail,omitempty"` // k>0: draw k-1 from the CSPRNG fails once (a recipient that draws there fails to wrap)
+	Recips   []LRecip `json:"recips"`
+	PLen     int      `json:"plen"`
+	Tape     uint64   `json:"tape"`
+	RandFail int      `json:"rand_fail,omitempty"` // k>0: draw k-1 from the CSPRNG fails once (a recipient that draws there fails to wrap)
 }
 
 // simRecipient wraps to a real X25519 key and declares labels per variant.
@@ -76,8 +76,10 @@ func (s *simLabeled) WrapWithLabels(fk []byte) ([]*age.Stanza, []string, error) 
 
 type C11 struct{}
 
-func (C11) ID() string           { return "C11" }
-func (C11) Title() string        { return "label sets and wrap failures at every position, destination observed for writes" }
+func (C11) ID() string { return "C11" }
+func (C11) Title() string {
+	return "label sets and wrap failures at every position, destination observed for writes"
+}
 func (C11) NewPlan() interface{} { return &C11Plan{} }
 func (C11) Runs(tier string) int {
 	if tier == "thorough" {
@@ -88,8 +90,8 @@ func (C11) Runs(tier string) int {
 
 func (C11) Meta() core.Meta {
 	return core.Meta{
-		Level: "exploration",
-		Rule: "a case = list of 1..6 recipients (occasionally 40..70, or with recipients emitting stanzas of 3..70 KB so that several KiB of header exist before the refusal), each native (X25519, ssh-ed25519, ssh-rsa: no labels; scrypt: fresh random label) or sim-owned with an interface variant (Recipient only / RecipientWithLabels returning nil / empty / a list in some order, possibly repeating a label) and optionally an injected wrap failure; the differing or failing recipient is placed at every position. Oracle: Encrypt succeeds iff all label sets are equal and no wrap failed; on refusal the destination saw zero Write calls; on success every real recipient decrypts. Non-trivial = at least two recipients or a failure; distinct = distinct recipient-list skeletons.",
+		Level:       "exploration",
+		Rule:        "a case = list of 1..6 recipients (occasionally 40..70, or with recipients emitting stanzas of 3..70 KB so that several KiB of header exist before the refusal), each native (X25519, ssh-ed25519, ssh-rsa: no labels; scrypt: fresh random label) or sim-owned with an interface variant (Recipient only / RecipientWithLabels returning nil / empty / a list in some order, possibly repeating a label) and optionally an injected wrap failure; the differing or failing recipient is placed at every position. Oracle: Encrypt succeeds iff all label sets are equal and no wrap failed; on refusal the destination saw zero Write calls; on success every real recipient decrypts. Non-trivial = at least two recipients or a failure; distinct = distinct recipient-list skeletons.",
 		Assumptions: []string{"label lists may repeat a label; where the set reading and the sorted-list reading of 'same labels' disagree nothing is asserted about acceptance (only that a refusal wrote nothing)", "plugin recipients' labels are exercised in the C16 engine, not here"},
 		Real:        []string{"filippo.io/age Encrypt (label comparison, wrap loop, header marshal)", "native recipients"},
 		Stub:        []string{"sim-owned recipients with chosen label lists / injected wrap failure", "destination (write-call counter)", "crypto/rand.Reader (tape)"},
